@@ -145,7 +145,9 @@ func unpackOneRepo(
 
 	// Make the root dir.  Git doesn't have metadata for the tree root.
 	conjuredFmeta := fshash.DefaultDirMetadata()
-	filters.ApplyUnpackFilter(filt, &conjuredFmeta)
+	if err := filters.ApplyUnpackFilter(filt, &conjuredFmeta); err != nil {
+		return err // (a filter that cannot be applied -- mtime=now -- is an error here as it is for tar and zip)
+	}
 	if err := fsOp.PlaceFile(afs, conjuredFmeta, nil, false); err != nil {
 		return Errorf(rio.ErrInoperablePath, "error while unpacking: %s", err)
 	}
@@ -236,13 +238,25 @@ func unpackOneRepo(
 			}
 			continue
 		default:
+			// Any other mode of a regular file (100775, 100600... written by old or foreign tools):
+			//  git itself canonicalises it by its owner-execute bit, in ls-tree as in checkout.
+			if te.Mode&0170000 == 0100000 {
+				fmeta.Type = fs.Type_File
+				fmeta.Perms = 0644
+				if te.Mode&0100 != 0 {
+					fmeta.Perms = 0755
+				}
+				break
+			}
 			return Errorf(rio.ErrWareCorrupt, "corrupt git tree: entry %q has unknown filemode %#v", name, te.Mode)
 		}
 
 		// Apply filters.
 		//  Git can't contain either device nodes nor setid bits so there's
 		//  no need to check for the filters for any rejection errors.
-		filters.ApplyUnpackFilter(filt, &fmeta)
+		if err := filters.ApplyUnpackFilter(filt, &fmeta); err != nil {
+			return err
+		}
 
 		// Place the file.
 		switch fmeta.Type {
